@@ -133,9 +133,9 @@ func TestC05Sweep(t *testing.T) {
 		}
 		cases = append(cases, c05Case{Seq: gen.Seq{Family: "constant", N: n, A: 1}}, c05Case{Seq: gen.Seq{Family: "alternating", N: n}})
 	}
-	big := []int{1 << 16, 1<<16 + 1, 100000, 1 << 17, 1000000}
+	big := []int{1 << 16, 1<<16 + 1, 100000, 1 << 17, 1000000, 1<<20 + 1, 2000001}
 	if thorough() {
-		big = append(big, 1<<19+1, 1<<20)
+		big = append(big, 1<<19+1, 1<<20, 1<<22+3)
 	}
 	for i, n := range big {
 		cases = append(cases, c05Case{Seq: gen.Seq{Family: "uniform", N: n, Seed: uint64(n)}, Procs: []int{3, 5, 6, 7, 12}[i%5]})
